@@ -7,6 +7,7 @@ import (
 	"go/types"
 	"math/big"
 	"strings"
+	"sync"
 
 	"gosmt/sym"
 
@@ -179,11 +180,20 @@ func zeroResults(in *Interp, fn *ssa.Function) Value {
 	return in.zero(res)
 }
 
+var fnNames sync.Map
+
 func fnName(fn *ssa.Function) string {
-	if o := fn.Origin(); o != nil {
-		return o.String()
+	if s, ok := fnNames.Load(fn); ok {
+		return s.(string)
 	}
-	return fn.String()
+	var s string
+	if o := fn.Origin(); o != nil {
+		s = o.String()
+	} else {
+		s = fn.String()
+	}
+	fnNames.Store(fn, s)
+	return s
 }
 
 // callFn runs fn; the result is nil, a single Value or a Tuple.
